@@ -27,6 +27,7 @@ type Contract struct {
 	Pkg      string // short package name
 	Kind     string // func, method, closure, external, iface, functype
 	Requires []*Clause
+	Assumes  []*Clause // assumed at entry of the function's own VCs, never asserted at call sites (listed as assumptions)
 	Ensures  []*Clause
 	Modifies []string // raw targets; nil = not specified (=> everything)
 	HasMod   bool
@@ -71,13 +72,14 @@ type SpecSet struct {
 	Tables    []*TableFact
 	FieldInvs map[string]string // "pkg.Type.field" -> "nonnil"
 	TypeInvs  map[string]*Clause // "pkg.Type" -> invariant over `self` (pointer to the type)
+	Immutable map[string]bool    // "pkg.Type": never written outside its defining packages (checked by inventory)
 	Errors    []string
 	Files     []string
 }
 
 var clauseKw = map[string]bool{"func": true, "method": true, "closure": true, "requires": true, "ensures": true, "modifies": true,
 	"loop": true, "pure": true, "props": true, "pred": true, "external": true, "iface": true, "functype": true, "ghost": true,
-	"trusted": true, "panics": true, "table": true, "fieldinv": true, "typeinv": true, "globalinv": true, "decreases": true, "assert": true, "fn": true, "nopanic": true}
+	"trusted": true, "panics": true, "table": true, "fieldinv": true, "typeinv": true, "globalinv": true, "immutable": true, "assumes": true, "decreases": true, "assert": true, "fn": true, "nopanic": true}
 
 var reParamList = regexp.MustCompile(`^([^\s(]+|\([^)]*\)\.[^\s(]+)\s*(?:\(([^)]*)\))?\s*(?:\(([^)]*)\))?\s*$`)
 
@@ -96,7 +98,7 @@ func splitNames(s string) []string {
 }
 
 func loadSpecs(repo string, pkgDirs map[string]string) *SpecSet {
-	ss := &SpecSet{Contracts: map[string]*Contract{}, Preds: map[string]*Pred{}, FieldInvs: map[string]string{}, TypeInvs: map[string]*Clause{}}
+	ss := &SpecSet{Contracts: map[string]*Contract{}, Preds: map[string]*Pred{}, FieldInvs: map[string]string{}, TypeInvs: map[string]*Clause{}, Immutable: map[string]bool{}}
 	var names []string
 	for n := range pkgDirs {
 		names = append(names, n)
@@ -253,6 +255,10 @@ func (ss *SpecSet) parseFile(pkg, path, data string) {
 				continue
 			}
 			ss.TypeInvs[pkg+"."+f[0]] = &Clause{Kind: "typeinv", Src: src, Expr: e, File: path, Line: rc.line}
+		case "immutable":
+			for _, f := range strings.Fields(rc.text) {
+				ss.Immutable[pkg+"."+f] = true
+			}
 		case "globalinv":
 			f := strings.Fields(rc.text)
 			if len(f) != 2 || f[1] != "nonnil" {
@@ -287,6 +293,10 @@ func (ss *SpecSet) parseFile(pkg, path, data string) {
 			case "ensures":
 				if c := mk("ensures"); c != nil {
 					cur.Ensures = append(cur.Ensures, c)
+				}
+			case "assumes":
+				if c := mk("assumes"); c != nil {
+					cur.Assumes = append(cur.Assumes, c)
 				}
 			case "panics":
 				if c := mk("panics"); c != nil {
